@@ -3,8 +3,18 @@
 package postgresql
 
 import (
+	"bufio"
 	"bytes"
+	"context"
 	"encoding/hex"
+
+	"github.com/sirupsen/logrus"
+
+	acracensor "github.com/cossacklabs/acra/acra-censor"
+	"github.com/cossacklabs/acra/acra-censor/handlers"
+	"github.com/cossacklabs/acra/crypto"
+	"github.com/cossacklabs/acra/decryptor/base"
+	"github.com/cossacklabs/acra/sqlparser"
 
 	"github.com/cossacklabs/acra/encryptor/base/config"
 	maskingCommon "github.com/cossacklabs/acra/masking/common"
@@ -200,4 +210,94 @@ func VerifC19_PgTypedText() {
 		asBytes := verif.Eq(out, verifDataRow([]byte("1"), stored, []byte("keep")))
 		verif.Assert(verif.Or(asStored, asBytes), "other-client-gets-the-stored-value")
 	}
+}
+
+// VerifC05_PgProxyDropsDenied: the proxy step behind the firewall verdict. A statement the configured rules deny —
+// as a simple Query or as the text of a Parse message — is not written to the database connection at all; a
+// statement they allow is forwarded unchanged; and the next, allowed statement after a denied one goes through.
+func VerifC05_PgProxyDropsDenied() {
+	store := verifPgKeys()
+	crypto.InitRegistry(nil)
+	env := config.CryptoEnvelopeTypeAcraBlock
+	schema, err := config.VerifNewStore(false, "t", []string{"id", "secret", "plain"},
+		&config.BasicColumnEncryptionSetting{Name: "secret", UsedClientID: "A", CryptoEnvelope: &env})
+	if err != nil {
+		panic("schema")
+	}
+	censor := acracensor.NewAcraCensor()
+	deny := handlers.NewDenyHandler(sqlparser.New(sqlparser.ModeStrict))
+	deny.AddTables([]string{"forbidden"})
+	censor.AddHandler(deny)
+	parser := sqlparser.New(sqlparser.ModeStrict)
+	setting := base.NewProxySetting(parser, schema, store, nil, censor, nil)
+	factory, _ := NewProxyFactory(setting, store, nil)
+	ctx := base.SetAccessContextToContext(context.Background(), base.NewAccessContext(base.WithClientID([]byte("A"))))
+	sess := &verifSession{data: map[string]interface{}{}}
+	ctx = base.SetClientSessionToContext(ctx, sess)
+	sess.ctx = ctx
+	p, err := factory.New([]byte("A"), sess)
+	if err != nil {
+		panic("proxy")
+	}
+	v := &verifPg{proxy: p.(*PgProxy), ctx: ctx, toDB: &bytes.Buffer{}, toCl: &bytes.Buffer{}, cin: &bytes.Buffer{}, din: &bytes.Buffer{},
+		logger: logrus.NewEntry(logrus.StandardLogger())}
+	v.client, _ = NewClientSidePacketHandler(v.cin, bufio.NewWriter(v.toDB), v.logger)
+	v.client.started = true
+	v.db, _ = NewDbSidePacketHandler(v.din, bufio.NewWriter(v.toCl), v.logger)
+
+	lit := verifPgMarker("literal", 2)
+	denied := verifSplice("select a from forbidden where b = '%s'", lit)
+	allowed := verifSplice("select a from other where b = '%s'", lit)
+	wrap := func(q []byte) []byte {
+		if verif.Choose("as-parse", 0, 1) == 1 {
+			return verifParse("s", string(q))
+		}
+		return verifQuery(q)
+	}
+	first := wrap(denied)
+	fwd, censored, err := v.fromClient(first)
+	verif.Reach("denied-handled")
+	verif.Assert(err == nil, "denied-no-error")
+	verif.Assert(censored, "denied-statement-is-censored")
+	verif.Assert(len(fwd) == 0 && v.toDB.Len() == 0, "denied-statement-not-written-to-the-database")
+	second := verifQuery(allowed)
+	fwd, censored, err = v.fromClient(verifDup(second))
+	verif.Assert(err == nil && !censored, "allowed-statement-passes")
+	verif.Assert(verif.Eq(fwd, second), "allowed-statement-forwarded-unchanged")
+}
+
+// VerifC12_PgProxyRelaySequence: messages the proxy has no reason to change, sent one after another in either
+// direction through the real loops, come out byte for byte and in the same order (unknown message types included).
+func VerifC12_PgProxyRelaySequence() {
+	store := verifPgKeys()
+	v := verifNewPg(store, "A", config.CryptoEnvelopeTypeAcraBlock)
+	k := 2 + verif.Tier()
+	var sent, got []byte
+	toDB := verif.Choose("direction", 0, 1) == 0
+	for i := 0; i < k; i++ {
+		tag := verif.U8("tag" + string(rune('0'+i)))
+		// types the proxy inspects are exercised by the other kernels; here: everything else
+		if toDB {
+			verif.Assume(verif.And(tag != 0, tag != 'Q', tag != 'P', tag != 'B', tag != 'E', tag != 'X'))
+		} else {
+			verif.Assume(verif.And(tag != 0, tag != 'D', tag != 'T', tag != 't', tag != 'C', tag != 'I', tag != 's', tag != 'E'))
+		}
+		body := verif.Bytes("body"+string(rune('0'+i)), verif.Choose("n"+string(rune('0'+i)), 0, 2))
+		wire := verifFrame(tag, body)
+		sent = append(sent, wire...)
+		var out []byte
+		var err error
+		if toDB {
+			out, _, err = v.fromClient(verifDup(wire))
+		} else {
+			out, err = v.fromDB(verifDup(wire))
+		}
+		verif.Assert(err == nil, "relayed-without-error")
+		if err != nil {
+			return
+		}
+		got = append(got, out...)
+	}
+	verif.Reach("sequence-relayed")
+	verif.Assert(verif.Eq(got, sent), "sequence-relayed-byte-for-byte-in-order")
 }
